@@ -586,7 +586,15 @@ def quantizer_report(model):
         except Exception:  # pylint: disable=broad-except
           qs.append(_cfg_str(q))
       out.append((layer.name + "/cell", qs))
-    if hasattr(layer, "activation") and not isinstance(
+    if type(layer).__name__ == "QActivation":
+      # the quantizer in use, whatever form (string / object) configured it
+      a = getattr(layer, "quantizer", None)
+      if a is not None and hasattr(a, "get_config"):
+        try:
+          out.append((layer.name + "/quantizer", [str(a)]))
+        except Exception:  # pylint: disable=broad-except
+          out.append((layer.name + "/quantizer", [_cfg_str(a)]))
+    elif hasattr(layer, "activation") and not isinstance(
         getattr(layer, "activation", None), str):
       a = getattr(layer, "activation", None)
       if a is not None and hasattr(a, "get_config"):
